@@ -612,7 +612,11 @@ class Engine:
       for (v, s, _) in res[1]:
         ns = State(dict(st.vars), s.aux)
         for k, val in s.vars.items():
-          if is_heap(k):
+          if isinstance(k, tuple) and k and k[0] == '@wb':
+            # an argument array the callee updated in place (exact per path)
+            if k[1] in ns.vars:
+              ns.vars[k[1]] = val
+          elif is_heap(k):
             ns.vars[k] = val
         bind(v, ns)
         f.normal.append(ns)
@@ -838,6 +842,19 @@ class Engine:
       s.aux = self.dom.aux_copy(s.aux)
       if is_for:
         ev = self._elem_consts(self.dom.iter_elem(itv, stmt, s), itv)
+        # `for i in range(n)` / `range(0, n)`: i is 0 in the (peeled) first
+        # iteration and non-zero afterwards
+        it_ = stmt.iter
+        if isinstance(ev, V) and ev.c is NOCONST and \
+                isinstance(it_, ast.Call) and \
+                isinstance(it_.func, ast.Name) and it_.func.id == 'range' \
+                and 'range' not in s.vars and not it_.keywords and (
+                    len(it_.args) == 1 or (
+                        len(it_.args) == 2 and
+                        isinstance(it_.args[0], ast.Constant) and
+                        it_.args[0].value == 0)):
+          ev = ev.with_(c=frozenset([0])) if first else \
+              ev.with_(nc=ev.nc | {0})
         self.assign(stmt.target, ev, s, func, stmt)
         entered = [s]
         exit_now = [head.copy()] if (may_skip or not first) else []
@@ -1960,6 +1977,11 @@ class Engine:
       self._dead = True
       return V(self.dom.top(e))
     if want_flow and self.dom.fork:
+      wb = self._writeback_pairs(target, e, func)
+      for (v, s, n) in flow.returns:
+        for p_, nm_ in wb:
+          if isinstance(s.vars.get(p_), V):
+            s.vars[('@wb', nm_)] = s.vars[p_]
       rets = [(self._wrap(self.dom.call_result(target, v, e, s)), s, n)
               for (v, s, n) in flow.returns]
       return ('flow', rets)
@@ -2001,6 +2023,17 @@ class Engine:
             for y in ast.walk(t):
               if isinstance(y, ast.Name):
                 plain.add(y.id)
+      elif isinstance(n, ast.Call):
+        # library calls that write into an argument: out=<name>, and the
+        # in-place numpy functions
+        for k in n.keywords:
+          if k.arg == 'out' and isinstance(k.value, ast.Name):
+            aug.add(k.value.id)
+        fn_ = ast.unparse(n.func).rsplit('.', 1)[-1]
+        if fn_ in ('putmask', 'place', 'copyto', 'fill_diagonal', 'put',
+                   'put_along_axis') and n.args and \
+                isinstance(n.args[0], ast.Name):
+          aug.add(n.args[0].id)
     for p, an in self._arg_pairs(target, e, func):
       if p in aug and p not in plain and isinstance(an, ast.Name) and \
               an.id in st.vars and isinstance(js.vars.get(p), V) and \
@@ -2009,6 +2042,42 @@ class Engine:
         if cur is not cv:
           st.vars[an.id] = cv if cur.ty == 'ndarray' or cv.ty == 'ndarray' \
               else self.join_v(cur, cv)
+
+  def _writeback_pairs(self, target, e, func):
+    """[(parameter, caller's variable)] for the parameters the callee only
+    updates in place (see _writeback_args)"""
+    aug, plain = set(), set()
+    for n in ast.walk(target.node):
+      if isinstance(n, ast.AugAssign):
+        t = n.target
+        while isinstance(t, ast.Subscript):
+          t = t.value
+        if isinstance(t, ast.Name):
+          aug.add(t.id)
+      elif isinstance(n, ast.Assign):
+        for t in n.targets:
+          if isinstance(t, ast.Subscript):
+            b = t.value
+            while isinstance(b, ast.Subscript):
+              b = b.value
+            if isinstance(b, ast.Name):
+              aug.add(b.id)
+          else:
+            for y in ast.walk(t):
+              if isinstance(y, ast.Name):
+                plain.add(y.id)
+      elif isinstance(n, ast.Call):
+        for k in n.keywords:
+          if k.arg == 'out' and isinstance(k.value, ast.Name):
+            aug.add(k.value.id)
+        fn_ = ast.unparse(n.func).rsplit('.', 1)[-1]
+        if fn_ in ('putmask', 'place', 'copyto', 'fill_diagonal', 'put',
+                   'put_along_axis') and n.args and \
+                isinstance(n.args[0], ast.Name):
+          aug.add(n.args[0].id)
+    # `w = np.divide(1, w, out=w)` rebinds the name to the same array
+    return [(p, an.id) for p, an in self._arg_pairs(target, e, func)
+            if p in aug and p not in plain and isinstance(an, ast.Name)]
 
   def _arg_pairs(self, target, e, func):
     """[(formal name, actual ast)] of a call expression"""
